@@ -366,6 +366,11 @@ def run(ck):
                               "theorems": THEOREMS, "seed": ck.seed})
     # composite round trips on the implementation, oracle = the property itself (model supplies the expected base64)
     texts = ["", "a", "hé😀", "\x00", "a\x00b", "\n", "\r\n", "\t", " ", "\"", "\\", "${x}", "#", "=", " ", "﻿"]
+    # texts that LOOK like escape notations of other languages: a text is its own bytes, nothing is decoded (seed C17-w7-m2:
+    # string_to_bytes turned \xHH into one byte)
+    ESC = ["\\x41", "C:\\x64\\tools", "\\xff", "\\x00", "\\x4", "[\\x00-\\x1f]+", "\\u0041", "\\u{41}", "\\U0001F600", "\\n", "\\r\\n", "\\t", "\\0", "\\101",
+           "\\\\", "\\\"", "%41", "%E2%82%AC", "&#65;", "&amp;", "=41", "=?utf-8?q?a?=", "0x41", "\\N{BULLET}", "$'\\x41'", "^A", "\\e[0m", "\\a\\b\\f\\v"]
+    texts += ESC + [a + b for a in ESC[:12] for b in ("", "z", "é")] + [rand_text(rng, 3) + rng.choice(ESC) + rand_text(rng, 3) for _ in range(200)]
     texts += [rand_text(rng, rng.randint(1, 40)) for _ in range(4000 if thorough else 800)]
     texts += [rand_text(rng, n) for n in (255, 256, 1000, 4095, 4096, 4097, 9000, 70000)]   # sizes around typical buffer limits
     exp_b64 = ck.model(["ENC\t" + enc_bytes(list(t.encode("utf8"))) for t in texts])
